@@ -70,6 +70,10 @@ func Parse(obj types.Object, opts *ParseOpts, localOpts LocalOpts) (*Definition,
 	if !ok {
 		return nil, formatErr("must be a function")
 	}
+	if _, isType := obj.(*types.TypeName); isType {
+		// an alias of a function type has a signature but cannot be called
+		return nil, formatErr("must be a function")
+	}
 	resultsLen := sig.Results().Len()
 
 	methodDef.TypeParams = sig.TypeParams().Len() > 0
